@@ -431,6 +431,20 @@ class History:
                 if hasattr(m, "on_dataset"):
                     m.on_dataset(target)
             over = target.execute_result_async
+            form = r.random()
+            if form < 0.3:
+                # an override that python counts as false: a callable recorder that is an (empty) list / has __len__ 0 / __bool__ False
+                class _FalsyExecutor(list):
+                    def __call__(self_, a, title=None):
+                        return target.execute_result_async(a, title)
+
+                over = _FalsyExecutor()
+                self.mode_counts["override-executors-that-are-falsy-objects"] = self.mode_counts.get("override-executors-that-are-falsy-objects", 0) + 1
+            elif form < 0.45:
+                import functools
+
+                over = functools.partial(target.execute_result_async)
+                self.mode_counts["override-executors-that-are-partials"] = self.mode_counts.get("override-executors-that-are-partials", 0) + 1
         target.fail_next = fail
         call = {"ev": "call", "c": next(_uid), "stream": e.id, "how": how, "override": override, "title": title, "expect_ds": target.name,
                 "expect_target": target, "entry": e, "log_start": len(self.log)}
